@@ -1,3 +1,937 @@
-//! C45 — stub, to be implemented.
-use vcore::Ctx;
-pub fn run(_ctx: &mut Ctx) {}
+//! C45 — request-response: every outbound request id gets exactly one of {Response, OutboundFailure},
+//! every inbound request delivered to the application gets exactly one of {ResponseSent,
+//! InboundFailure}; request ids are unique.
+//!
+//! World: 2..3 real `Swarm<request_response::Behaviour<FaultyCodec>>` over the simulated transport
+//! and muxer of `simswarm::net`; every connection task runs on the harness executor, so the
+//! harness owns the interleaving of swarm polls and connection-task polls, and decides when (real)
+//! time passes (`Sleep` ops; the request timeout is a real `futures_timer::Delay`).
+//! The codec's behaviour per message is a pure function of the message bytes (the fault plan
+//! travels inside the request), so a case is deterministic up to real-time effects.
+use futures::channel::oneshot;
+use futures::io::{AsyncRead, AsyncReadExt, AsyncWrite, AsyncWriteExt};
+use futures::task::{waker, ArcWake};
+use futures::Stream as _;
+use libp2p_core::transport::{ListenerId, Transport};
+use libp2p_core::Multiaddr;
+use libp2p_identity::PeerId;
+use libp2p_request_response as rr;
+use libp2p_swarm::dial_opts::DialOpts;
+use libp2p_swarm::{Config, ConnectionId, StreamProtocol, Swarm, SwarmEvent};
+use multiaddr::Protocol;
+use proptest::prelude::*;
+use serde::{Deserialize, Serialize};
+use serde_json::{json, Value};
+use simswarm::net::{self, mux_pair, ConnResult, MuxCtl, NetState, SimMuxer, SimTransport};
+use std::collections::BTreeMap;
+use std::io;
+use std::num::NonZeroUsize;
+use std::pin::Pin;
+use std::sync::atomic::{AtomicBool, Ordering};
+use std::sync::{Arc, Mutex};
+use std::task::{Context, Poll};
+use std::time::{Duration, Instant};
+use vcore::simexec::Exec;
+use vcore::{gen, pick, Ctx, Outcome};
+
+/// request timeout of every behaviour in the world (real time)
+const TIMEOUT_MS: u64 = 40;
+/// how long the wind-down waits (real time) for timer-driven outcomes before giving up
+const WINDDOWN_MS: u64 = 600;
+
+// ---------------------------------------------------------------------------------------------
+// codec
+
+/// What a codec method does with one message. Encoded in one byte of the message itself.
+/// 0 = succeed, 1 = fail before doing I/O, 2 = fail after (partial, for writes) I/O,
+/// 3 = stall forever before I/O, 4 = stall forever after the I/O.
+fn act(b: u8) -> u8 {
+    b % 5
+}
+
+/// Message layout: [write_request, read_request, write_response, read_response, app, tag..]
+#[derive(Clone, Debug, PartialEq, Eq)]
+pub struct Msg(Vec<u8>);
+
+#[derive(Clone, Default)]
+pub struct FaultyCodec;
+
+async fn stall<T>() -> T {
+    futures::future::pending::<T>().await
+}
+
+fn scripted(what: &str) -> io::Error {
+    io::Error::other(format!("scripted codec failure: {what}"))
+}
+
+async fn read_msg<T: AsyncRead + Unpin + Send>(io: &mut T, slot: usize, what: &'static str) -> io::Result<Msg> {
+    let mut buf = vec![];
+    io.take(64).read_to_end(&mut buf).await?;
+    if buf.len() < 6 {
+        return Err(io::Error::new(io::ErrorKind::UnexpectedEof, "short message"));
+    }
+    match act(buf[slot]) {
+        1 | 2 => Err(scripted(what)),
+        3 | 4 => stall().await,
+        _ => Ok(Msg(buf)),
+    }
+}
+
+async fn write_msg<T: AsyncWrite + Unpin + Send>(io: &mut T, m: Msg, slot: usize, what: &'static str) -> io::Result<()> {
+    match act(m.0[slot]) {
+        1 => Err(scripted(what)),
+        2 => {
+            io.write_all(&m.0[..2]).await?;
+            io.flush().await?;
+            Err(scripted(what))
+        }
+        3 => stall().await,
+        4 => {
+            io.write_all(&m.0).await?;
+            io.flush().await?;
+            stall().await
+        }
+        _ => {
+            io.write_all(&m.0).await?;
+            Ok(())
+        }
+    }
+}
+
+impl rr::Codec for FaultyCodec {
+    type Protocol = StreamProtocol;
+    type Request = Msg;
+    type Response = Msg;
+
+    async fn read_request<T>(&mut self, _: &Self::Protocol, io: &mut T) -> io::Result<Msg>
+    where
+        T: AsyncRead + Unpin + Send,
+    {
+        read_msg(io, 1, "read_request").await
+    }
+    async fn read_response<T>(&mut self, _: &Self::Protocol, io: &mut T) -> io::Result<Msg>
+    where
+        T: AsyncRead + Unpin + Send,
+    {
+        read_msg(io, 3, "read_response").await
+    }
+    async fn write_request<T>(&mut self, _: &Self::Protocol, io: &mut T, req: Msg) -> io::Result<()>
+    where
+        T: AsyncWrite + Unpin + Send,
+    {
+        write_msg(io, req, 0, "write_request").await
+    }
+    async fn write_response<T>(&mut self, _: &Self::Protocol, io: &mut T, res: Msg) -> io::Result<()>
+    where
+        T: AsyncWrite + Unpin + Send,
+    {
+        write_msg(io, res, 2, "write_response").await
+    }
+}
+
+type Beh = rr::Behaviour<FaultyCodec>;
+
+// ---------------------------------------------------------------------------------------------
+// case
+
+#[derive(Clone, Copy, Debug, Serialize, Deserialize, PartialEq, Eq)]
+pub struct Plan {
+    /// codec decisions: write_request, read_request, write_response, read_response (see `act`)
+    pub wreq: u8,
+    pub rreq: u8,
+    pub wresp: u8,
+    pub rresp: u8,
+    /// what the receiving application does: 0 respond at once, 1 drop the channel at once, 2 hold it
+    pub app: u8,
+}
+
+#[derive(Clone, Debug, Serialize, Deserialize)]
+pub enum Op {
+    /// `send_request` / `send_request_with_addresses` from node n. `to`: index of a node (may be n
+    /// itself) or >= nodes for a peer that is no node. `addr`: 0 none, 1 the target's listen address
+    /// (for a non-node: an address nobody listens on).
+    Send { n: u8, to: u8, addr: u8, plan: Plan },
+    /// `Swarm::add_peer_address(to, listen address of to)` on node n
+    AddAddr { n: u8, to: u8 },
+    /// explicit `Swarm::dial` from n to node `to`, transport + upgrade resolved at once
+    Connect { n: u8, to: u8 },
+    /// resolve an open transport dial of node n: how 0 = ok (remote node sees the inbound
+    /// connection; `both` = its upgrade finishes at once), 1 = error, 2 = ok but authenticated as a
+    /// different peer
+    ResolveDial { n: u8, pick: u16, how: u8, both: bool },
+    /// finish a pending inbound upgrade
+    ResolveIn { pick: u16, ok: bool },
+    Close { n: u8, pick: u16 },
+    Disconnect { n: u8, to: u8 },
+    /// the remote end of a link closes / the muxer of one side fails
+    RemoteClose { pick: u16, side: bool },
+    Fault { pick: u16, side: bool },
+    /// application answers / drops a held response channel
+    Respond { n: u8, pick: u16 },
+    DropChan { n: u8, pick: u16 },
+    /// poll the picked runnable things (connection tasks and woken swarms), one per entry
+    Step { picks: Vec<u16> },
+    /// let real time pass without polling anything
+    Sleep { ms: u8 },
+    Settle,
+}
+
+#[derive(Clone, Debug, Serialize, Deserialize)]
+pub struct Case {
+    pub nodes: u8,
+    pub max_streams: u8,
+    pub notify_buf: u8,
+    pub event_buf: u8,
+    /// per node: 0 full, 1 inbound only, 2 outbound only
+    pub support: Vec<u8>,
+    pub ops: Vec<Op>,
+}
+
+// ---------------------------------------------------------------------------------------------
+// world
+
+struct WakeFlag(AtomicBool);
+impl ArcWake for WakeFlag {
+    fn wake_by_ref(a: &Arc<Self>) {
+        a.0.store(true, Ordering::SeqCst);
+    }
+}
+
+enum Chan {
+    Held(rr::ResponseChannel<Msg>),
+    /// send_response returned Ok
+    Responded,
+    /// send_response returned Err: the channel was already closed
+    RespondRefused,
+    DroppedOpen,
+    DroppedClosed,
+}
+
+struct InReq {
+    peer: PeerId,
+    conn: ConnectionId,
+    chan: Chan,
+    terminals: Vec<String>,
+}
+
+struct OutReq {
+    peer: PeerId,
+    terminals: Vec<String>,
+}
+
+struct Node {
+    swarm: Swarm<Beh>,
+    net: Arc<Mutex<NetState>>,
+    peer: PeerId,
+    flag: Arc<WakeFlag>,
+    listener: Option<ListenerId>,
+    est: BTreeMap<ConnectionId, PeerId>,
+    out: BTreeMap<rr::OutboundRequestId, OutReq>,
+    inb: BTreeMap<rr::InboundRequestId, InReq>,
+    /// ids of held channels in delivery order
+    held: Vec<rr::InboundRequestId>,
+}
+
+struct Link {
+    a: MuxCtl,
+    b: MuxCtl,
+}
+
+struct PendingIn {
+    tx: Option<oneshot::Sender<ConnResult>>,
+    muxer: Option<SimMuxer>,
+    auth: PeerId,
+}
+
+#[derive(Default)]
+struct Stats {
+    labels: std::collections::BTreeSet<&'static str>,
+    out_fail: u32,
+    in_fail: u32,
+    closed_in_flight: u32,
+    sends: u32,
+    delivered: u32,
+}
+
+struct World {
+    exec: Exec,
+    nodes: Vec<Node>,
+    links: Vec<Link>,
+    incoming: Vec<PendingIn>,
+    fail: Option<(String, Value)>,
+    st: Stats,
+    tag: u16,
+}
+
+fn node_peer(j: usize) -> PeerId {
+    gen::peer(j)
+}
+fn listen_addr(j: usize) -> Multiaddr {
+    Multiaddr::empty().with(Protocol::Memory(1000 + j as u64))
+}
+fn strip_p2p(a: &Multiaddr) -> Multiaddr {
+    a.iter().filter(|p| !matches!(p, Protocol::P2p(_))).collect()
+}
+fn proto() -> StreamProtocol {
+    StreamProtocol::new("/c45/1")
+}
+
+impl World {
+    fn new(case: &Case) -> World {
+        let nn = case.nodes.clamp(2, 3) as usize;
+        let exec = Exec::new();
+        let mut nodes = vec![];
+        for i in 0..nn {
+            let (t, netst) = SimTransport::new();
+            let ex = exec.clone();
+            let config = Config::with_executor(move |f| ex.spawn_named("conn", f))
+                .with_idle_connection_timeout(Duration::from_secs(3600))
+                .with_notify_handler_buffer_size(NonZeroUsize::new(case.notify_buf.clamp(1, 8) as usize).unwrap())
+                .with_per_connection_event_buffer_size(case.event_buf.clamp(1, 8) as usize);
+            let support = match case.support.get(i).copied().unwrap_or(0) % 3 {
+                1 => rr::ProtocolSupport::Inbound,
+                2 => rr::ProtocolSupport::Outbound,
+                _ => rr::ProtocolSupport::Full,
+            };
+            let cfg = rr::Config::default()
+                .with_request_timeout(Duration::from_millis(TIMEOUT_MS))
+                .with_max_concurrent_streams(case.max_streams.clamp(1, 6) as usize);
+            let beh = Beh::with_codec(FaultyCodec, [(proto(), support)], cfg);
+            let mut swarm = Swarm::new(t.boxed(), beh, node_peer(i), config);
+            let listener = swarm.listen_on(listen_addr(i)).ok();
+            nodes.push(Node {
+                swarm,
+                net: netst,
+                peer: node_peer(i),
+                flag: Arc::new(WakeFlag(AtomicBool::new(true))),
+                listener,
+                est: BTreeMap::new(),
+                out: BTreeMap::new(),
+                inb: BTreeMap::new(),
+                held: vec![],
+            });
+        }
+        World { exec, nodes, links: vec![], incoming: vec![], fail: None, st: Stats::default(), tag: 0 }
+    }
+
+    fn fail(&mut self, sig: &str, detail: Value) {
+        if self.fail.is_none() {
+            self.fail = Some((sig.to_string(), detail));
+        }
+    }
+
+    fn label(&mut self, l: &'static str) {
+        self.st.labels.insert(l);
+    }
+
+    fn woken(&self, i: usize) -> bool {
+        self.nodes[i].flag.0.load(Ordering::SeqCst)
+    }
+
+    /// Poll swarm i once and interpret the event.
+    fn poll(&mut self, i: usize) -> bool {
+        let ev = {
+            let n = &mut self.nodes[i];
+            n.flag.0.store(false, Ordering::SeqCst);
+            let w = waker(n.flag.clone());
+            let mut cx = Context::from_waker(&w);
+            match Pin::new(&mut n.swarm).poll_next(&mut cx) {
+                Poll::Ready(Some(e)) => {
+                    n.flag.0.store(true, Ordering::SeqCst);
+                    e
+                }
+                _ => return false,
+            }
+        };
+        self.on_event(i, ev);
+        true
+    }
+
+    fn on_event(&mut self, i: usize, ev: SwarmEvent<rr::Event<Msg, Msg>>) {
+        match ev {
+            SwarmEvent::ConnectionEstablished { peer_id, connection_id, .. } => {
+                self.nodes[i].est.insert(connection_id, peer_id);
+                let same = self.nodes[i].est.values().filter(|p| **p == peer_id).count();
+                if same >= 2 {
+                    self.label("two_connections_to_one_peer");
+                }
+            }
+            SwarmEvent::ConnectionClosed { connection_id, .. } => {
+                self.nodes[i].est.remove(&connection_id);
+                self.label("connection_closed");
+            }
+            SwarmEvent::OutgoingConnectionError { .. } => self.label("dial_error"),
+            SwarmEvent::Behaviour(e) => self.on_rr_event(i, e),
+            _ => {}
+        }
+    }
+
+    fn out_terminal(&mut self, i: usize, id: rr::OutboundRequestId, what: String) {
+        match self.nodes[i].out.get_mut(&id) {
+            None => self.fail("C45:outcome-for-unknown-outbound-request-id", json!({"node": i, "request_id": id.to_string(), "event": what})),
+            Some(r) => {
+                r.terminals.push(what);
+                if r.terminals.len() > 1 {
+                    let t = r.terminals.clone();
+                    self.fail("C45:outbound-request-more-than-one-outcome", json!({"node": i, "request_id": id.to_string(), "events": t}));
+                }
+            }
+        }
+    }
+
+    fn in_terminal(&mut self, i: usize, id: rr::InboundRequestId, what: String) {
+        match self.nodes[i].inb.get_mut(&id) {
+            // the statement only speaks about requests that were delivered to the application
+            None => self.label("inbound_outcome_for_undelivered_request"),
+            Some(r) => {
+                r.terminals.push(what);
+                if r.terminals.len() > 1 {
+                    let t = r.terminals.clone();
+                    self.fail("C45:inbound-request-more-than-one-outcome", json!({"node": i, "request_id": id.to_string(), "events": t}));
+                }
+            }
+        }
+    }
+
+    fn on_rr_event(&mut self, i: usize, e: rr::Event<Msg, Msg>) {
+        match e {
+            rr::Event::Message { peer, connection_id, message } => match message {
+                rr::Message::Request { request_id, request, channel } => {
+                    self.st.delivered += 1;
+                    if self.nodes[i].inb.contains_key(&request_id) {
+                        self.fail("C45:inbound-request-id-reused", json!({"node": i, "request_id": request_id.to_string()}));
+                        return;
+                    }
+                    let open = channel.is_open();
+                    if !open {
+                        self.label("request_delivered_with_closed_channel");
+                    }
+                    let chan = match request.0.get(4).copied().unwrap_or(0) % 3 {
+                        0 => match self.nodes[i].swarm.behaviour_mut().send_response(channel, request.clone()) {
+                            Ok(()) => Chan::Responded,
+                            Err(_) => {
+                                self.label("send_response_refused");
+                                Chan::RespondRefused
+                            }
+                        },
+                        1 => {
+                            drop(channel);
+                            if open {
+                                Chan::DroppedOpen
+                            } else {
+                                Chan::DroppedClosed
+                            }
+                        }
+                        _ => {
+                            self.nodes[i].held.push(request_id);
+                            Chan::Held(channel)
+                        }
+                    };
+                    self.nodes[i].inb.insert(request_id, InReq { peer, conn: connection_id, chan, terminals: vec![] });
+                }
+                rr::Message::Response { request_id, .. } => {
+                    self.label("out_response");
+                    self.out_terminal(i, request_id, "Response".into());
+                }
+            },
+            rr::Event::OutboundFailure { request_id, error, .. } => {
+                self.st.out_fail += 1;
+                let l = match error {
+                    rr::OutboundFailure::DialFailure => "out_fail_dial",
+                    rr::OutboundFailure::Timeout => "out_fail_timeout",
+                    rr::OutboundFailure::ConnectionClosed => {
+                        self.st.closed_in_flight += 1;
+                        "out_fail_connection_closed"
+                    }
+                    rr::OutboundFailure::UnsupportedProtocols => "out_fail_unsupported",
+                    rr::OutboundFailure::Io(_) => "out_fail_io",
+                };
+                self.label(l);
+                self.out_terminal(i, request_id, format!("OutboundFailure({l})"));
+            }
+            rr::Event::InboundFailure { request_id, error, .. } => {
+                let l = match error {
+                    rr::InboundFailure::Timeout => "in_fail_timeout",
+                    rr::InboundFailure::ConnectionClosed => "in_fail_connection_closed",
+                    rr::InboundFailure::UnsupportedProtocols => "in_fail_unsupported",
+                    rr::InboundFailure::ResponseOmission => "in_fail_omission",
+                    rr::InboundFailure::Io(_) => "in_fail_io",
+                };
+                if self.nodes[i].inb.contains_key(&request_id) {
+                    self.st.in_fail += 1;
+                    if l == "in_fail_connection_closed" {
+                        self.st.closed_in_flight += 1;
+                    }
+                    self.label(l);
+                }
+                self.in_terminal(i, request_id, format!("InboundFailure({l})"));
+            }
+            rr::Event::ResponseSent { request_id, .. } => {
+                self.label("in_response_sent");
+                self.in_terminal(i, request_id, "ResponseSent".into());
+            }
+        }
+    }
+
+    /// everything that could be polled now: connection tasks first, then woken swarms
+    fn step(&mut self, p: u16) -> bool {
+        let tasks = self.exec.runnable();
+        let swarms: Vec<usize> = (0..self.nodes.len()).filter(|i| self.woken(*i)).collect();
+        let total = tasks.len() + swarms.len();
+        if total == 0 {
+            return false;
+        }
+        let k = pick(p, total);
+        if k < tasks.len() {
+            self.exec.poll_task(tasks[k]);
+        } else {
+            self.poll(swarms[k - tasks.len()]);
+        }
+        true
+    }
+
+    /// run everything until nothing can make progress without time passing
+    fn settle(&mut self) -> bool {
+        for _ in 0..400 {
+            let mut progressed = false;
+            if !self.exec.runnable().is_empty() {
+                self.exec.drain(64);
+                progressed = true;
+            }
+            for i in 0..self.nodes.len() {
+                let mut k = 0;
+                while self.woken(i) && k < 64 {
+                    k += 1;
+                    progressed = true;
+                    self.poll(i);
+                    if self.fail.is_some() {
+                        return true;
+                    }
+                }
+            }
+            if !progressed {
+                return true;
+            }
+        }
+        false
+    }
+
+    fn open_dials(&self, i: usize) -> Vec<usize> {
+        let s = self.nodes[i].net.lock().unwrap();
+        s.dials.iter().enumerate().filter(|(_, r)| r.tx.is_some() && !r.dropped.load(Ordering::SeqCst)).map(|(k, _)| k).collect()
+    }
+
+    fn resolve_dial(&mut self, i: usize, d: usize, how: u8, both: bool) {
+        let (tx, addr) = {
+            let mut s = self.nodes[i].net.lock().unwrap();
+            let Some(r) = s.dials.get_mut(d) else { return };
+            (r.tx.take(), r.addr.clone())
+        };
+        let Some(tx) = tx else { return };
+        let bare = strip_p2p(&addr);
+        let target = (0..self.nodes.len()).find(|j| listen_addr(*j) == bare && self.nodes[*j].listener.is_some());
+        let refuse = |tx: oneshot::Sender<ConnResult>| {
+            let _ = tx.send(Err(io::Error::new(io::ErrorKind::ConnectionRefused, "scripted dial failure")));
+        };
+        let Some(j) = target else {
+            refuse(tx);
+            return;
+        };
+        if how % 3 == 1 {
+            refuse(tx);
+            return;
+        }
+        let auth = if how % 3 == 2 { gen::peer(7) } else { self.nodes[j].peer };
+        let ((ma, ca), (mb, cb)) = mux_pair();
+        let lid = self.nodes[j].listener.unwrap();
+        let send_back = Multiaddr::empty().with(Protocol::Memory(5000 + self.links.len() as u64));
+        let itx = self.nodes[j].net.lock().unwrap().incoming(lid, listen_addr(j), send_back);
+        let dialer_peer = self.nodes[i].peer;
+        if both {
+            let _ = itx.send(Ok((dialer_peer, net::boxed(mb))));
+        } else {
+            self.incoming.push(PendingIn { tx: Some(itx), muxer: Some(mb), auth: dialer_peer });
+        }
+        let _ = tx.send(Ok((auth, net::boxed(ma))));
+        self.links.push(Link { a: ca, b: cb });
+    }
+
+    fn resolve_incoming(&mut self, k: usize, ok: bool) {
+        let Some(p) = self.incoming.get_mut(k) else { return };
+        let Some(tx) = p.tx.take() else { return };
+        match (ok, p.muxer.take()) {
+            (true, Some(m)) => {
+                let _ = tx.send(Ok((p.auth, net::boxed(m))));
+            }
+            _ => {
+                let _ = tx.send(Err(io::Error::new(io::ErrorKind::InvalidData, "scripted handshake failure")));
+            }
+        }
+    }
+
+    fn target_peer(&self, to: u8) -> (PeerId, Option<usize>) {
+        let nn = self.nodes.len();
+        // `to` in 0..=nn: nn = a peer that is not a node
+        let t = to as usize % (nn + 1);
+        if t < nn {
+            (self.nodes[t].peer, Some(t))
+        } else {
+            (gen::peer(6), None)
+        }
+    }
+
+    fn exec_op(&mut self, op: &Op) {
+        let nn = self.nodes.len();
+        match op {
+            Op::Send { n, to, addr, plan } => {
+                let i = *n as usize % nn;
+                let (peer, node) = self.target_peer(*to);
+                self.tag = self.tag.wrapping_add(1);
+                let msg = Msg(vec![plan.wreq, plan.rreq, plan.wresp, plan.rresp, plan.app, (self.tag & 0xff) as u8, (self.tag >> 8) as u8]);
+                let addrs = if addr % 2 == 1 {
+                    vec![match node {
+                        Some(j) => listen_addr(j),
+                        None => Multiaddr::empty().with(Protocol::Memory(2000)),
+                    }]
+                } else {
+                    vec![]
+                };
+                let connected = self.nodes[i].swarm.is_connected(&peer);
+                let id = self.nodes[i].swarm.behaviour_mut().send_request_with_addresses(&peer, msg, addrs);
+                self.st.sends += 1;
+                self.label(if connected { "send_connected" } else { "send_not_connected" });
+                if node == Some(i) {
+                    self.label("send_to_self");
+                }
+                if self.nodes[i].out.contains_key(&id) {
+                    self.fail("C45:outbound-request-id-reused", json!({"node": i, "request_id": id.to_string()}));
+                    return;
+                }
+                self.nodes[i].out.insert(id, OutReq { peer, terminals: vec![] });
+                // the behaviour has something to hand to the swarm
+                self.nodes[i].flag.0.store(true, Ordering::SeqCst);
+            }
+            Op::AddAddr { n, to } => {
+                let i = *n as usize % nn;
+                let j = *to as usize % nn;
+                if i != j {
+                    let p = self.nodes[j].peer;
+                    self.nodes[i].swarm.add_peer_address(p, listen_addr(j));
+                    self.nodes[i].flag.0.store(true, Ordering::SeqCst);
+                }
+            }
+            Op::Connect { n, to } => {
+                let i = *n as usize % nn;
+                let j = *to as usize % nn;
+                if i == j {
+                    return;
+                }
+                let before: Vec<usize> = self.open_dials(i);
+                let opts = DialOpts::peer_id(self.nodes[j].peer).condition(libp2p_swarm::dial_opts::PeerCondition::Always).addresses(vec![listen_addr(j)]).build();
+                if self.nodes[i].swarm.dial(opts).is_err() {
+                    return;
+                }
+                self.nodes[i].flag.0.store(true, Ordering::SeqCst);
+                let new: Vec<usize> = self.open_dials(i).into_iter().filter(|d| !before.contains(d)).collect();
+                if let Some(d) = new.first() {
+                    self.resolve_dial(i, *d, 0, true);
+                }
+            }
+            Op::ResolveDial { n, pick: p, how, both } => {
+                let i = *n as usize % nn;
+                let open = self.open_dials(i);
+                if open.is_empty() {
+                    return;
+                }
+                let d = open[pick(*p, open.len())];
+                self.resolve_dial(i, d, *how, *both);
+            }
+            Op::ResolveIn { pick: p, ok } => {
+                let open: Vec<usize> = self.incoming.iter().enumerate().filter(|(_, x)| x.tx.is_some()).map(|(k, _)| k).collect();
+                if open.is_empty() {
+                    return;
+                }
+                let k = open[pick(*p, open.len())];
+                self.resolve_incoming(k, *ok);
+            }
+            Op::Close { n, pick: p } => {
+                let i = *n as usize % nn;
+                let ids: Vec<ConnectionId> = self.nodes[i].est.keys().copied().collect();
+                if ids.is_empty() {
+                    return;
+                }
+                let id = ids[pick(*p, ids.len())];
+                self.nodes[i].swarm.close_connection(id);
+                self.nodes[i].flag.0.store(true, Ordering::SeqCst);
+            }
+            Op::Disconnect { n, to } => {
+                let i = *n as usize % nn;
+                let (peer, _) = self.target_peer(*to);
+                let _ = self.nodes[i].swarm.disconnect_peer_id(peer);
+                self.nodes[i].flag.0.store(true, Ordering::SeqCst);
+            }
+            Op::RemoteClose { pick: p, side } => {
+                if self.links.is_empty() {
+                    return;
+                }
+                let l = &self.links[pick(*p, self.links.len())];
+                if *side {
+                    l.a.remote_close()
+                } else {
+                    l.b.remote_close()
+                }
+            }
+            Op::Fault { pick: p, side } => {
+                if self.links.is_empty() {
+                    return;
+                }
+                let l = &self.links[pick(*p, self.links.len())];
+                if *side {
+                    l.a.inject_fault(io::ErrorKind::BrokenPipe)
+                } else {
+                    l.b.inject_fault(io::ErrorKind::BrokenPipe)
+                }
+            }
+            Op::Respond { n, pick: p } | Op::DropChan { n, pick: p } => {
+                let i = *n as usize % nn;
+                if self.nodes[i].held.is_empty() {
+                    return;
+                }
+                let k = pick(*p, self.nodes[i].held.len());
+                let id = self.nodes[i].held.remove(k);
+                let node = &mut self.nodes[i];
+                let Some(r) = node.inb.get_mut(&id) else { return };
+                let Chan::Held(ch) = std::mem::replace(&mut r.chan, Chan::Responded) else { return };
+                let open = ch.is_open();
+                let mut refused = false;
+                r.chan = if matches!(op, Op::Respond { .. }) {
+                    match node.swarm.behaviour_mut().send_response(ch, Msg(vec![0, 0, 0, 0, 0, 0xee, 0xee])) {
+                        Ok(()) => Chan::Responded,
+                        Err(_) => {
+                            refused = true;
+                            Chan::RespondRefused
+                        }
+                    }
+                } else {
+                    drop(ch);
+                    if open {
+                        Chan::DroppedOpen
+                    } else {
+                        Chan::DroppedClosed
+                    }
+                };
+                if refused {
+                    self.label("send_response_refused");
+                }
+                self.label("late_app_decision");
+            }
+            Op::Step { picks } => {
+                for p in picks {
+                    if !self.step(*p) || self.fail.is_some() {
+                        break;
+                    }
+                }
+            }
+            Op::Sleep { ms } => {
+                std::thread::sleep(Duration::from_millis(*ms as u64));
+                self.label("sleep");
+            }
+            Op::Settle => {
+                self.settle();
+            }
+        }
+    }
+
+    fn missing(&self) -> (usize, usize) {
+        let mut o = 0;
+        let mut n = 0;
+        for node in &self.nodes {
+            o += node.out.values().filter(|r| r.terminals.is_empty()).count();
+            n += node.inb.values().filter(|r| r.terminals.is_empty()).count();
+        }
+        (o, n)
+    }
+
+    /// Wind-down: the environment answers everything it still owes (open dials fail, pending
+    /// upgrades finish), then we wait — bounded, real time — for timer-driven outcomes.
+    /// Returns Some(reason) when outcomes are still missing and no time-independent witness shows
+    /// that they can never arrive.
+    fn wind_down(&mut self) -> Option<String> {
+        self.settle();
+        for i in 0..self.nodes.len() {
+            for d in self.open_dials(i) {
+                self.resolve_dial(i, d, 1, true);
+            }
+        }
+        for k in 0..self.incoming.len() {
+            self.resolve_incoming(k, true);
+        }
+        let start = Instant::now();
+        loop {
+            let settled = self.settle();
+            if self.fail.is_some() {
+                return None;
+            }
+            // a dial started by the behaviour during settle (e.g. a request queued behind a closing connection)
+            for i in 0..self.nodes.len() {
+                for d in self.open_dials(i) {
+                    self.resolve_dial(i, d, 1, true);
+                }
+            }
+            if settled && self.missing() == (0, 0) && self.exec.runnable().is_empty() && (0..self.nodes.len()).all(|i| !self.woken(i)) {
+                return None;
+            }
+            if start.elapsed() >= Duration::from_millis(WINDDOWN_MS) {
+                break;
+            }
+            std::thread::sleep(Duration::from_millis(2));
+        }
+        // Outcomes are missing after >= 15 request timeouts. Look for witnesses that do not depend on time.
+        self.settle();
+        if self.fail.is_some() {
+            return None;
+        }
+        for i in 0..self.nodes.len() {
+            let outs: Vec<(rr::OutboundRequestId, PeerId)> = self.nodes[i].out.iter().filter(|(_, r)| r.terminals.is_empty()).map(|(k, r)| (*k, r.peer)).collect();
+            for (id, peer) in outs {
+                if !self.nodes[i].swarm.behaviour().is_pending_outbound(&peer, &id) {
+                    self.fail(
+                        "C45:outbound-request-forgotten-without-outcome",
+                        json!({"node": i, "request_id": id.to_string(), "why": "no Response/OutboundFailure was emitted and the behaviour no longer tracks the request (is_pending_outbound == false) at quiescence"}),
+                    );
+                    return None;
+                }
+            }
+            let ins: Vec<rr::InboundRequestId> = self.nodes[i].inb.iter().filter(|(_, r)| r.terminals.is_empty()).map(|(k, _)| *k).collect();
+            for id in ins {
+                let (peer, conn, worker_gone, chan) = {
+                    let r = &self.nodes[i].inb[&id];
+                    let (gone, chan) = match &r.chan {
+                        Chan::Held(c) => (!c.is_open(), "held"),
+                        Chan::RespondRefused => (true, "send_response returned Err"),
+                        Chan::DroppedClosed => (true, "dropped (already closed)"),
+                        Chan::Responded => (false, "responded"),
+                        Chan::DroppedOpen => (false, "dropped"),
+                    };
+                    (r.peer, r.conn, gone, chan)
+                };
+                let tracked = self.nodes[i].swarm.behaviour().is_pending_inbound(&peer, &id);
+                if !tracked {
+                    self.fail(
+                        "C45:inbound-request-forgotten-without-outcome",
+                        json!({"node": i, "request_id": id.to_string(), "channel": chan, "why": "no ResponseSent/InboundFailure was emitted and the behaviour no longer tracks the request (is_pending_inbound == false) at quiescence"}),
+                    );
+                    return None;
+                }
+                if worker_gone && self.nodes[i].est.contains_key(&conn) {
+                    self.fail(
+                        "C45:inbound-request-delivered-after-its-stream-was-given-up-no-outcome",
+                        json!({"node": i, "request_id": id.to_string(), "channel": chan, "connection_still_established": true,
+                               "why": "the response channel of the delivered request is closed (the handler already dropped the stream's worker), the behaviour still lists the request as pending, the connection stays open: no ResponseSent/InboundFailure can arrive before the connection closes"}),
+                    );
+                    return None;
+                }
+            }
+        }
+        let (o, n) = self.missing();
+        Some(format!("{o} outbound / {n} inbound requests without outcome after {WINDDOWN_MS} ms of real waiting (no time-independent witness)"))
+    }
+}
+
+fn check(case: &Case) -> Outcome {
+    let mut w = World::new(case);
+    for op in &case.ops {
+        w.exec_op(op);
+        if w.fail.is_some() {
+            break;
+        }
+    }
+    let mut inconclusive = None;
+    if w.fail.is_none() {
+        inconclusive = w.wind_down();
+    }
+    let fail = w.fail.take();
+    let st = std::mem::take(&mut w.st);
+    // tear down: swarms first (drops pending futures), then the tasks
+    let exec = w.exec.clone();
+    drop(w);
+    exec.clear();
+    if let Some((sig, detail)) = fail {
+        return Outcome::fail(sig, detail);
+    }
+    if let Some(why) = inconclusive {
+        return Outcome::Inconclusive(why);
+    }
+    let mut labels: Vec<&'static str> = st.labels.iter().copied().collect();
+    if st.sends == 0 {
+        labels.push("no_request");
+    }
+    if st.delivered > 0 {
+        labels.push("request_delivered");
+    }
+    let nontrivial = st.out_fail > 0 && st.in_fail > 0 && st.closed_in_flight > 0;
+    if st.out_fail > 0 && st.in_fail > 0 {
+        labels.push("failure_on_both_sides");
+    }
+    if st.closed_in_flight > 0 {
+        labels.push("close_with_requests_in_flight");
+    }
+    Outcome::pass_l(nontrivial, labels)
+}
+
+// ---------------------------------------------------------------------------------------------
+// generator
+
+fn act_strategy() -> impl Strategy<Value = u8> {
+    prop_oneof![12 => Just(0u8), 1 => Just(1u8), 1 => Just(2u8), 1 => Just(3u8), 1 => Just(4u8)]
+}
+
+fn plan() -> impl Strategy<Value = Plan> {
+    (act_strategy(), act_strategy(), act_strategy(), act_strategy(), prop_oneof![5 => Just(0u8), 2 => Just(1u8), 3 => Just(2u8)])
+        .prop_map(|(wreq, rreq, wresp, rresp, app)| Plan { wreq, rreq, wresp, rresp, app })
+}
+
+fn op() -> impl Strategy<Value = Op> {
+    prop_oneof![
+        30 => (0u8..3, 0u8..4, prop_oneof![2 => Just(0u8), 3 => Just(1u8)], plan()).prop_map(|(n, to, addr, plan)| Op::Send { n, to, addr, plan }),
+        2 => (0u8..3, 0u8..3).prop_map(|(n, to)| Op::AddAddr { n, to }),
+        8 => (0u8..3, 0u8..3).prop_map(|(n, to)| Op::Connect { n, to }),
+        8 => (0u8..3, any::<u16>(), prop_oneof![6 => Just(0u8), 2 => Just(1u8), 1 => Just(2u8)], prop::bool::weighted(0.8)).prop_map(|(n, pick, how, both)| Op::ResolveDial { n, pick, how, both }),
+        3 => (any::<u16>(), prop::bool::weighted(0.8)).prop_map(|(pick, ok)| Op::ResolveIn { pick, ok }),
+        5 => (0u8..3, any::<u16>()).prop_map(|(n, pick)| Op::Close { n, pick }),
+        2 => (0u8..3, 0u8..4).prop_map(|(n, to)| Op::Disconnect { n, to }),
+        2 => (any::<u16>(), any::<bool>()).prop_map(|(pick, side)| Op::RemoteClose { pick, side }),
+        2 => (any::<u16>(), any::<bool>()).prop_map(|(pick, side)| Op::Fault { pick, side }),
+        4 => (0u8..3, any::<u16>()).prop_map(|(n, pick)| Op::Respond { n, pick }),
+        2 => (0u8..3, any::<u16>()).prop_map(|(n, pick)| Op::DropChan { n, pick }),
+        22 => prop::collection::vec(any::<u16>(), 1..24).prop_map(|picks| Op::Step { picks }),
+        3 => prop_oneof![3 => 1u8..20, 2 => 20u8..60].prop_map(|ms| Op::Sleep { ms }),
+        8 => Just(Op::Settle),
+    ]
+}
+
+fn case_strategy() -> BoxedStrategy<Case> {
+    (
+        2u8..=3,
+        1u8..=4,
+        1u8..=4,
+        1u8..=7,
+        prop::collection::vec(prop_oneof![10 => Just(0u8), 1 => Just(1u8), 1 => Just(2u8)], 3),
+        prop::collection::vec(op(), 4..48),
+    )
+        .prop_map(|(nodes, max_streams, notify_buf, event_buf, support, ops)| Case { nodes, max_streams, notify_buf, event_buf, support, ops })
+        .boxed()
+}
+
+pub fn run(ctx: &mut Ctx) {
+    ctx.assume("transport, muxer and scheduling are simulated (simswarm::net, vcore::simexec): connection tasks are polled only when the harness says so; peers are real Swarms with request_response::Behaviour over a scripted codec");
+    ctx.assume(&format!("request_timeout = {TIMEOUT_MS} ms of real time (futures_timer); the wind-down waits up to {WINDDOWN_MS} ms for timer-driven outcomes and reports Inconclusive, never a violation, unless a time-independent witness (behaviour getters is_pending_outbound / is_pending_inbound, ResponseChannel::is_open, connection still established) shows that the outcome cannot arrive"));
+    ctx.assume("idle_connection_timeout = 1 h, so connections only close when the case closes them; the substream upgrade timeout keeps its default (10 s) and never fires");
+    ctx.check::<Case>(
+        "world",
+        "programs of 4..48 ops over 2..3 swarms: send_request (connected / not connected, with / without address, to self, to an unknown peer), codec fault plan per request (fail/stall in each of the 4 codec methods), application responds / drops / holds the channel, dial resolution ok / error / wrong peer, inbound upgrade ok / error, close_connection, disconnect_peer_id, remote close, muxer fault, real-time sleeps, generated task/swarm poll schedules, max_concurrent_streams 1..4, small handler buffers; non-trivial = >=1 OutboundFailure and >=1 InboundFailure (of a delivered request) and >=1 ConnectionClosed failure (a connection closed with requests in flight); distinct by case hash",
+        ctx.n(3000, 100_000),
+        &case_strategy,
+        &check,
+    );
+}
